@@ -106,6 +106,74 @@ thread_local! {
     pub static STALE_FOR_PID: std::cell::RefCell<Option<(PathBuf, Vec<u8>)>> = const { std::cell::RefCell::new(None) };
 }
 
+/// How the shipped binary frames a program's output on standard output: learned from one run
+/// of a calibration program on the current tree, so that rewording a status line is not taken
+/// for a change of program output.
+#[derive(Debug, Clone)]
+pub struct Framing {
+    /// The last status line before the program's output (with its newline).
+    pub before: Vec<u8>,
+    /// What follows the program's output, up to where the file name is printed.
+    pub after: Option<Vec<u8>>,
+}
+
+pub fn framing() -> &'static Framing {
+    static FRAMING: std::sync::OnceLock<Framing> = std::sync::OnceLock::new();
+    FRAMING.get_or_init(|| {
+        let fallback = Framing {
+            before: b"Running emitted binary\n".to_vec(),
+            after: Some(b"   Completed target ".to_vec()),
+        };
+        // Prints a marker and ends by jumping to 0xFFFF: no HALT message in between
+        let scratch = Scratch::new("framing");
+        let source = "    lea r0, Msg\n    puts\n    ld r1, End\n    jmp r1\nEnd .fill xFFFF\nMsg .stringz \"@@CAL@@\"\n";
+        if std::fs::write(scratch.path("calprog.asm"), source).is_err() {
+            return fallback;
+        }
+        let p = run_lace(
+            &scratch,
+            &Run {
+                args: vec!["run".into(), "calprog.asm".into()],
+                cwd: &scratch.dir,
+                stdin: b"",
+                plan: None,
+                watch: None,
+                rlimit_fsize: None,
+            },
+        );
+        let marker = b"@@CAL@@";
+        let Some(at) = p.stdout.windows(marker.len()).position(|w| w == marker) else {
+            return fallback;
+        };
+        let pre = &p.stdout[..at];
+        let post = &p.stdout[at + marker.len()..];
+        // The last complete line of what precedes the output
+        let Some(end) = pre.iter().rposition(|b| *b == b'\n') else {
+            return fallback;
+        };
+        let start = pre[..end].iter().rposition(|b| *b == b'\n').map(|i| i + 1).unwrap_or(0);
+        let before = pre[start..=end].to_vec();
+        if before.windows(7).any(|w| w == b"calprog") || before.len() < 3 {
+            return fallback;
+        }
+        let name = b"calprog.asm";
+        let after = post.windows(name.len()).position(|w| w == name).map(|i| post[..i].to_vec()).filter(|a| a.len() >= 3);
+        Framing { before, after }
+    })
+}
+
+/// The program's own output within the standard output of `lace run` / `lace debug`.
+pub fn program_output(stdout: &[u8]) -> Option<Vec<u8>> {
+    let f = framing();
+    let at = stdout.windows(f.before.len()).position(|w| w == &f.before[..])?;
+    let rest = &stdout[at + f.before.len()..];
+    let end = match &f.after {
+        Some(after) => rest.windows(after.len()).rposition(|w| w == &after[..]).unwrap_or(rest.len()),
+        None => rest.len(),
+    };
+    Some(rest[..end].to_vec())
+}
+
 /// Standard input of the next child that is not a pipe fed by the harness.
 #[derive(Clone, Debug)]
 pub enum OddStdin {
